@@ -73,6 +73,12 @@ func argPools(rng *rand.Rand, extra int) []argPool {
 	add("nestediface", aIf{}, aIf{}, aIf{aBody{[]int{1}}}, aIf{aBody{[]int{1}}}, aIf{aBody{[]int{2}}}, aIf{aBody{3}}, aIf{aBody{3}}, aIf{aBody{map[string]int{"a": 1}}}, aIf{aBody{map[string]int{"a": 1}}})
 	add("array", [2]int{}, [2]int{}, [2]int{1, 2}, [2]int{2, 1}, [2]int{1, 2})
 	add("slice", []int{}, []int(nil), []int{}, []int{1}, []int{1}, []int{1, 2}, nil)
+	// slices over ONE backing array: same first element, different lengths / offsets (equal only when the elements are)
+	buf := []int{1, 2, 1, 2, 0, 0}
+	add("slicealias", []int{}, buf[:0], buf[:2], buf[:4], buf[:2], buf[2:4], buf[:2:2], []int{1, 2}, buf[4:5], buf[5:6], buf[:0:0])
+	add("structalias", aBody{}, aBody{buf[:2]}, aBody{buf[:4]}, aBody{buf[2:4]}, aBody{buf[:2]}, aBody{[]int{1, 2}}, aBody{buf[:0]})
+	str := "abab"
+	add("stralias", "", str[:2], str[:4], str[2:4], str[:0], "ab")
 	add("map", map[string]int{}, map[string]int(nil), map[string]int{}, map[string]int{"a": 1}, map[string]int{"a": 1}, map[string]int{"a": 2}, nil)
 	add("ptrint", ip(0), ip(1), ip(1), ip(2), (*int)(nil), nil)
 	add("ptrstruct", &aS{}, &aS{1, "x", nil}, &aS{1, "x", nil}, &aS{2, "x", nil}, (*aS)(nil), nil)
